@@ -6,6 +6,7 @@
  *   tbl <isDC> <lossless> b1 .. b16 | v0 v1 ...
  *   rt  <isDC> <lossless> b1 .. b16 | v0 v1 ... | s0 s1 ...   (encode+decode)
  *   nbits <lo> <hi>
+ *   tn <seed> <mode> <optimize> / tw <seed> <mode>   real-codec families, see harness/c19tn.inc.c
  */
 #include <stdio.h>
 #include <stdlib.h>
@@ -113,6 +114,8 @@ static int ms_encode(unsigned seed, int w, int h, int multiscan, unsigned char *
   jpeg_finish_compress(&c); jpeg_destroy_compress(&c); free(row); return 0;
 }
 
+#include "c19tn.inc.c"
+
 int main(void)
 {
   setvbuf(stdout, NULL, _IOLBF, 0);
@@ -195,6 +198,12 @@ int main(void)
       ha = ms_hash(a, na, &wa); hb = ms_hash(b, nb, &wb);
       printf("ms %s warn=%d,%d\n", (ha == hb && wa == 0 && wb == 0) ? "same" : "DIFF", wa, wb);
       free(a); free(b);
+    } else if (!strcmp(cmd, "tn")) {
+      unsigned seed = (unsigned)strtoul(p, &p, 10); int mode = (int)strtol(p, &p, 10), opt = (int)strtol(p, &p, 10);
+      tn_line(seed, mode, opt);
+    } else if (!strcmp(cmd, "tw")) {
+      unsigned seed = (unsigned)strtoul(p, &p, 10); int mode = (int)strtol(p, &p, 10);
+      tw_line(seed, mode);
     } else if (!strcmp(cmd, "nbits")) {
       long lo = strtol(p, &p, 10), hi = strtol(p, &p, 10), x;
       printf("nb");
